@@ -448,7 +448,6 @@ func (f *Footer) DecRef() {
 		for _, childFooter := range f.ChildFooters {
 			childFooter.DecRef()
 		}
-		f.ChildFooters = nil
 	}
 	f.m.Unlock()
 }
